@@ -1,7 +1,7 @@
 """C11 — REPL evaluation is equivalent to evaluating the lines as one program (ordering / commit clauses)."""
 from qvlib.extract import CheckError
 from qvlib.facts import op_local, op_place
-from qvlib.paths import Flow, call_matches, discr_switches, explore
+from qvlib.paths import Flow, call_matches, discr_switches, explore, path_desc
 
 CRATES = None
 REPL = "quiver_environment::repl::Repl"
@@ -126,6 +126,29 @@ def r2_compact(ctx):
     gets = [(bi, t) for bi, t in c.calls() if (t.get("callee") or "").endswith("HashMap::get")]
     vm = [bi for bi, t in c.calls() if (t.get("callee") or "").endswith("HashMap::values_mut")]
     ctx.check(bool(gets) and bool(vm), R, c.key + "|rewrite", "every binding index is rewritten through the map (values_mut + get)", "bindings are no longer rewritten through the index map", c.loc(0))
+    # compaction is unconditional: once a REPL process exists, every way through compact() hands the keep list to the worker (skipping it "because
+    # the variables already sit in slots 0..n" leaves stale slots behind whenever a binding disappeared without running code, e.g. a type alias
+    # re-using a variable's name)
+    from qvlib.paths import option_none_edges, diverging_blocks
+    pidl = set()
+    for bi2, si2, st2 in c.stmts():
+        if st2["k"] == "assign" and st2["rv"]["k"] in ("use", "discr", "ref"):
+            pl2 = st2["rv"].get("p") or op_place(st2["rv"].get("op") or {})
+            if pl2 and any(e[0] == "f" and e[1] == "repl_process_id" for e in pl2["pr"]):
+                pidl.add(st2["p"]["l"])
+                if st2["rv"]["k"] == "discr":
+                    pidl.add(("discr", st2["p"]["l"]))
+    none_edges = []
+    for bi2, blk2 in enumerate(c.blocks):
+        t2 = blk2["term"]
+        if t2["k"] == "switch" and op_local(t2["op"]) in {x[1] for x in pidl if isinstance(x, tuple)}:
+            some = dict((v, bb) for v, bb in t2["targets"]).get(1)
+            for _v, bb in c.switch_edges(bi2):
+                if bb != some:
+                    none_edges.append((bi2, bb))
+    bad = explore(c, [0], avoid=[x[0] for x in cl], stop=diverging_blocks(c), exempt_edges=none_edges, want="return") if cl else [0]
+    ctx.check(bool(cl) and bad is None, R, c.key + "|always-compacts", "every path through compact() (REPL process present) calls env.compact_locals",
+              "compact() can return without compacting the worker's locals although a REPL process exists: %s" % path_desc(c, bad), c.loc(0))
     # worker side: compact_locals -> replace_locals with the kept values in keep order
     w = F.body("quiver_environment::worker::Worker::compact_locals")
     ctx.check(bool(w.calls_to("Executor::replace_locals")), R, w.key + "|replace_locals", "the worker re-indexes the process locals through Executor::replace_locals",
@@ -231,8 +254,26 @@ def r6_line_merge(ctx):
     c07.r5_remap_order_and_freshness(ctx, "R-C11-6")
 
 
+def r7_session_resources_survive_lines(ctx):
+    """a REPL line 'completing' must not tear the session down: resources are closed only from handle_process_results for awaited, completed
+    processes — never on per-line result delivery to the persistent process (shared with R-C14-3)"""
+    from rules import c14
+    before = len(ctx.obs)
+    c14.r3_close(ctx)
+    kept = []
+    for o in ctx.obs[before:]:
+        if o["site"].startswith("callers(cleanup_process_resources)") or o["site"].endswith("|cleanup-guard"):
+            o = dict(o)
+            o["rule"] = "R-C11-7"
+            kept.append(o)
+    ctx.obs[before:] = kept
+    if "R-C14-3" in ctx.rules:
+        ctx.rules["R-C11-7"] = ctx.rules.pop("R-C14-3")
+    ctx.floors[:] = [f for f in ctx.floors if f["rule"] != "R-C14-3"]
+
+
 def run(ctx):
-    ctx.run_rules([r1_commit_after_success, r2_compact, r3_clones, r4_resume_feeds_result, r5_persistent_locals, r6_line_merge])
+    ctx.run_rules([r1_commit_after_success, r2_compact, r3_clones, r4_resume_feeds_result, r5_persistent_locals, r6_line_merge, r7_session_resources_survive_lines])
     return (
         "Decides the ordering/commit clauses behind 'a rejected line leaves the session exactly as it was' and the alignment plumbing: session "
         "fields and the process are touched only after the compile succeeded, compaction precedes compilation and re-indexes bindings and locals by "
